@@ -1,6 +1,7 @@
 use crate::util::{Ctx, Report};
 
 pub mod c01;
+pub mod c02;
 pub mod c05;
 pub mod c07;
 pub mod c08;
@@ -12,10 +13,13 @@ pub mod c15;
 pub mod c16;
 pub mod c17;
 pub mod c18;
+pub mod selfcheck;
+pub mod dbg;
 
 pub fn dispatch(ctx: &Ctx, rep: &mut Report) -> bool {
     match ctx.prop.as_str() {
         "C01" => c01::run(ctx, rep),
+        "C02" => c02::run(ctx, rep),
         "C05" => c05::run(ctx, rep),
         "C07" => c07::run(ctx, rep),
         "C08" => c08::run(ctx, rep),
@@ -27,6 +31,8 @@ pub fn dispatch(ctx: &Ctx, rep: &mut Report) -> bool {
         "C16" => c16::run(ctx, rep),
         "C17" => c17::run(ctx, rep),
         "C18" => c18::run(ctx, rep),
+        "DBG" => dbg::run(ctx, rep),
+        "SELF" => selfcheck::run(ctx, rep),
         _ => return false,
     }
     true
